@@ -1,9 +1,10 @@
 use std::collections::HashMap;
 
 use cosmwasm_std::{
-    ensure, Addr, BankMsg, Coin, CosmosMsg, Deps, DepsMut, Env, MessageInfo, Response, Storage,
-    Uint128,
+    ensure, Addr, BankMsg, Coin, CosmosMsg, Deps, DepsMut, Env, MessageInfo, Order, Response,
+    Storage, Uint128,
 };
+use cw_storage_plus::Bound;
 
 use mantra_dex_std::coin::aggregate_coins;
 use mantra_dex_std::farm_manager::{EpochId, Farm, RewardsResponse};
@@ -404,8 +405,11 @@ fn compute_farm_emissions(
     Ok((farm_emissions, until_epoch))
 }
 
-/// Syncs the address lp weight history for the given address and epoch_id, removing all the previous
-/// entries as the user has already claimed those epochs, and setting the weight for the current epoch.
+/// Syncs the address lp weight history for the given address and epoch_id. With
+/// `save_last_lp_weight` the entries up to `current_epoch_id` (epochs the user has already claimed)
+/// are compacted into a single entry at `current_epoch_id` carrying the weight in effect at that
+/// epoch; entries for later epochs, i.e. changes that have not taken effect yet, are kept. Without
+/// it the whole history is removed.
 pub fn sync_address_lp_weight_history(
     storage: &mut dyn Storage,
     address: &Addr,
@@ -414,21 +418,37 @@ pub fn sync_address_lp_weight_history(
     save_last_lp_weight: bool,
 ) -> Result<(), ContractError> {
     let (earliest_epoch_id, _) = get_earliest_address_lp_weight(storage, address, lp_denom)?;
-    let (latest_epoch_id, latest_address_lp_weight) =
+    let (latest_epoch_id, _) =
         get_latest_address_lp_weight(storage, address, lp_denom, current_epoch_id)?;
 
-    // remove previous entries
-    for epoch_id in earliest_epoch_id..=latest_epoch_id {
-        LP_WEIGHT_HISTORY.remove(storage, (address, lp_denom, epoch_id));
+    if !save_last_lp_weight {
+        // remove all entries
+        for epoch_id in earliest_epoch_id..=latest_epoch_id {
+            LP_WEIGHT_HISTORY.remove(storage, (address, lp_denom, epoch_id));
+        }
+
+        return Ok(());
     }
 
-    if save_last_lp_weight {
-        // save the latest weight for the current epoch
-        LP_WEIGHT_HISTORY.save(
+    // the weight in effect at current_epoch_id is the latest entry at or before it
+    let weight_in_effect = LP_WEIGHT_HISTORY
+        .prefix((address, lp_denom))
+        .range(
             storage,
-            (address, lp_denom, *current_epoch_id),
-            &latest_address_lp_weight,
-        )?;
+            None,
+            Some(Bound::inclusive(*current_epoch_id)),
+            Order::Descending,
+        )
+        .next()
+        .transpose()?;
+
+    if let Some((_, weight)) = weight_in_effect {
+        // remove the claimed entries only
+        for epoch_id in earliest_epoch_id..=latest_epoch_id.min(*current_epoch_id) {
+            LP_WEIGHT_HISTORY.remove(storage, (address, lp_denom, epoch_id));
+        }
+
+        LP_WEIGHT_HISTORY.save(storage, (address, lp_denom, *current_epoch_id), &weight)?;
     }
 
     Ok(())
